@@ -79,8 +79,11 @@ def shards(tier):
     wide = [{'adapter': 'Axi2Reg', 'qw': 72, 'sw': 128, 'alpha': [0, 1 << 64, (1 << 72) - 1, (1 << 127) | 5]},
             {'adapter': 'Axi2Reg', 'qw': 65, 'sw': 512, 'alpha': [1, 1 << 64, (1 << 511) | (1 << 63)]},
             {'adapter': 'Reg2Axi', 'w': 72, 'sw': 128, 'alpha': [1 << 64, (1 << 72) - 1]}]
+    # an adapter added inside a wrapper block that existed and was simulated before
+    late = [{'adapter': 'Axi2Reg', 'qw': 2, 'sw': 8, 'alpha': [0x00, 0x01, 0xFE], 'late': 1},
+            {'adapter': 'Reg2Axi', 'w': 2, 'sw': 8, 'alpha': [0, 1, 2], 'late': 1}]
     if tier != 'thorough':
-        out += side + odd + wide
+        out += side + odd + wide + late
     if tier == 'thorough':
         full = [lo | hi for hi in (0x00, 0xF8) for lo in range(8)]
         out = []
@@ -91,7 +94,7 @@ def shards(tier):
             out.append({'adapter': 'Reg2Axi', 'w': w, 'sw': 8, 'alpha': list(range(1 << w))})
         out.append({'adapter': 'Reg2Axi', 'w': 8, 'sw': 8, 'alpha': [0x00, 0x01, 0x80, 0xFF]})
         out.append({'adapter': 'Reg2Axi', 'w': 9, 'sw': 16, 'alpha': [0x000, 0x001, 0x100, 0x1FF]})
-        out += side + odd[1:] + wide
+        out += side + odd[1:] + wide + late
         for dut in ('wire', 'reg'):
             out.append({'adapter': 'pair', 'dut': dut, 'qw': 2, 'sw': 8, 'alpha': list(Q_ALPHA)})
     return out
@@ -144,8 +147,16 @@ def _ctx(hw, ins, mons):
 
 def build(d):
     hw = py4hw.HWSystem()
+    top = hw
     a = d['adapter']
     B = (0, 1)
+    if d.get('late'):
+        # the adapter is added INSIDE a wrapper block that existed (and was simulated) before: build, simulate, add, simulate on
+        hw = py4hw.Logic(top, 'wrap')
+        e0 = top.wire('early_in')
+        py4hw.Reg(hw, 'early', e0, top.wire('early_q'))
+        py4hw.Constant(top, 'early_k', 0, e0)
+        top.getSimulator().clk(1)
     if a == 'Axi2Reg':
         st, rs, dn = hw.wire('ap_start'), hw.wire('ap_reset'), hw.wire('ap_done')
         q, loaded, active = hw.wire('q', d['qw']), hw.wire('loaded'), hw.wire('active')
@@ -160,7 +171,7 @@ def build(d):
         mon = proto_axi.Axi2RegMonitor(d['qw'])
         xm = {n: w for n, w, _ in ins}
         om = {'active': active, 'tready': s.tready, 'q': q, 'loaded': loaded}
-        return _ctx(hw, ins, [('Axi2Reg', mon, xm, om)])
+        return _ctx(top, ins, [('Axi2Reg', mon, xm, om)])
     if a == 'Reg2Axi':
         st, rs, dn, ld = hw.wire('ap_start'), hw.wire('ap_reset'), hw.wire('ap_done'), hw.wire('load_outs')
         reg_in, sent, active = hw.wire('reg_in', d['w']), hw.wire('sent'), hw.wire('active')
@@ -171,7 +182,7 @@ def build(d):
         mon = proto_axi.Reg2AxiMonitor(d['w'])
         xm = {n: w for n, w, _ in ins}
         om = {'active': active, 'tvalid': s.tvalid, 'tdata': s.tdata, 'tlast': s.tlast, 'tkeep': s.tkeep, 'sent': sent}
-        return _ctx(hw, ins, [('Reg2Axi', mon, xm, om)])
+        return _ctx(top, ins, [('Reg2Axi', mon, xm, om)])
     if a == 'pair':
         # the wiring of createHILVitis with a one-input / one-output DUT (a wire or a register)
         st, rs = hw.wire('ap_start'), hw.wire('ap_reset')
@@ -198,7 +209,7 @@ def build(d):
         o1 = {'active': a_in, 'tready': si.tready, 'q': q, 'loaded': loaded}
         x2 = {'ap_start': st, 'ap_reset': rs, 'ap_done': dn, 'load_outs': ld, 'reg_in': reg_in, 'tready': so.tready}
         o2 = {'active': a_out, 'tvalid': so.tvalid, 'tdata': so.tdata, 'tlast': so.tlast, 'tkeep': so.tkeep, 'sent': sent}
-        c = _ctx(hw, ins, [('Axi2Reg@pair', m1, x1, o1), ('Reg2Axi@pair', m2, x2, o2)])
+        c = _ctx(top, ins, [('Axi2Reg@pair', m1, x1, o1), ('Reg2Axi@pair', m2, x2, o2)])
         c.closed_env = True
         return c
     raise ValueError(a)
@@ -353,6 +364,8 @@ def finish(cov, results, tier):
 
 
 def powerup_problem(d):
+    if d.get('late'):
+        return None     # getSimulator() on an existing simulator only re-sorts: the first clock call settles the added adapter
     with core.quiet():
         c = build(d)
     for (tag, mon, _, om), st in zip(c.mons, c.ms):
